@@ -83,6 +83,29 @@ def inv_items(props, tier):
     return out
 
 
+CONC_SUBJECTS = ['g_lru_l2', 'g_lfu_l2', 'g_random_l2', 'g_tag1', 'g_ttl1', 'g_mem1kb', 'a_lru_l2', 'a_lfu_l2', 'a_arc_l2', 'a_tag1_ev1', 'a_ttl1', 'a_mem1kb']
+
+
+def conc_items(props, tier, want=None):
+    from .wrap import subjects
+    S = subjects(); out = []
+    for name in CONC_SUBJECTS:
+        it = S[name]['intended']
+        progs = {'call|inv_with': [[('call', ('new', 0))], [('inv_with',)]], 'call|call': [[('call', ('new', 0))], [('call', ('new', 1))]],
+                 'same|same': [[('call', ('fill', 0))], [('call', ('fill', 0))]], 'call|inv_all_with': [[('call', ('new', 0))], [('inv_all_with',)]],
+                 'call|inv_cache': [[('call', ('new', 0))], [('inv_cache', it['cache_name'])]], 'call|stats_get': [[('call', ('new', 0))], [('stats_get',)]],
+                 'call|stats_reset': [[('call', ('fill', 0))], [('stats_reset',)]], 'inv_with|inv_cache': [[('inv_with',)], [('inv_cache', it['cache_name'])]]}
+        if it['tags']: progs['call|inv_tag'] = [[('call', ('new', 0))], [('inv_tag', it['tags'][0])]]
+        for pname, pg in progs.items():
+            if want and not want(pname, it): continue
+            for nf in (1, 2):
+                if nf == 2 and pname in ('same|same', 'call|stats_get', 'call|stats_reset', 'inv_with|inv_cache') and tier == 'quick': continue
+                out.append(dict(kind='conc', subject=name, nfill=nf, progs=pg, preempt=2 if tier == 'quick' else 3, props=list(props)))
+        if tier == 'thorough':
+            out.append(dict(kind='conc', subject=name, nfill=1, progs=[[('call', ('new', 0))], [('inv_with',)], [('call', ('new', 1))]], preempt=2, props=list(props), max_paths=20000))
+    return out
+
+
 def items_for(prop, tier):
     p = prop
     if p == 'C01': return step_items(['C01'], tier) + wrap_items(['C01'], tier, second=(False, True))
@@ -92,11 +115,15 @@ def items_for(prop, tier):
     if p == 'C06': return step_items(['C06'], tier, ops=('get', 'insert'), need=lambda fl, pol, op, L, T, M, fw: T or op == 'insert')
     if p == 'C07': return step_items(['C07'], tier, policies=['FIFO', 'LRU'])
     if p == 'C08': return step_items(['C08'], tier, policies=['LFU', 'ARC', 'TLRU'])
-    if p == 'C15': return step_items(['C15'], tier, flavours=['G', 'A'], ops=('get',))
+    if p == 'C15':
+        c = conc_items(['C15'], tier, want=lambda pn, it: pn in ('same|same', 'call|call'))
+        for x in c: x['atomics'] = True
+        return step_items(['C15'], tier, flavours=['G', 'A'], ops=('get',)) + c
     if p == 'C16': return step_items(['C16'], tier)
     if p == 'C09': return wrap_items(['C09'], tier, pred=lambda r: r['intended']['result'], second=(False, True))
     if p == 'C10': return wrap_items(['C10'], tier, pred=lambda r: r['intended']['cache_if'] or r['group'] in ('plain', 'res'), second=(False,))
     if p == 'C11': return wrap_items(['C11'], tier, pred=lambda r: r['intended']['invalidate_on'] or r['group'] in ('plain',), second=(False, True))
+    if p in ('C17', 'C18'): return conc_items([p], tier)
     if p in ('C12', 'C13'): return inv_items([p], tier)
     if p == 'C14': return wrap_items(['C14'], tier, pred=lambda r: r['group'] in ('cfg', 'plain', 'sig', 'method', 'meta', 'mem'), patterns=('same', 'other-thread'))
     if p == 'C19': return wrap_items(['C19'], tier)
